@@ -83,3 +83,53 @@ Definition run_egm (args : list sexp) : sexp :=
       end
   | _ => Sym "bad-case"
   end.
+
+(* ---- per-operation observations (C08, C13): after every op the progress measure, the equality
+   matrix over the handles obtained so far and the public slots of every handle ---- *)
+Definition step_obs (s : egraph) (hs : list appid) : res sexp :=
+  do m <- eq_matrix s hs;
+  do sl <- mapr (fun a => do f <- find_applied_id s a; Ok (set_sexp (values (am f)))) hs;
+  do p <- progress s;
+  let '(a, b, c, d) := p in
+  Ok (Lst [Sym "st"; Lst [Sym "prog"; Num a; Num b; Num c; Num d];
+           Sym (String "b"%char (bits m)); Lst sl;
+           Lst [Sym "nodes"; Num (N.of_nat (total_number_of_nodes s))]]).
+
+Fixpoint run_ops_steps (terms : list rterm) (ops : list hop) (handles : list appid) (acc : list sexp) (s : egraph)
+  : list sexp :=
+  match ops with
+  | [] => rev acc
+  | o :: t =>
+      let r := match o with
+               | HAdd k => match nth_opt terms k with
+                           | None => Err OutOfBounds
+                           | Some tm => match add_expr tm s with Ok (a, s') => Ok (handles ++ [a], s') | Err e => Err e end
+                           end
+               | HUnion i j _ =>
+                   match nth_opt handles i, nth_opt handles j with
+                   | Some a, Some b => match eg_union a b s with Ok (_, s') => Ok (handles, s') | Err e => Err e end
+                   | _, _ => Err OutOfBounds
+                   end
+               end in
+      match r with
+      | Err e => rev (Lst [Sym "err"; site_sexp e] :: acc)
+      | Ok (hs', s') =>
+          match step_obs s' hs' with
+          | Ok ob => run_ops_steps terms t hs' (ob :: acc) s'
+          | Err e => rev (Lst [Sym "err"; site_sexp e] :: acc)
+          end
+      end
+  end.
+
+Definition run_egs (args : list sexp) : sexp :=
+  match args with
+  | _ :: Lst (Sym "terms" :: ts) :: Lst (Sym "ops" :: os) :: _ =>
+      match dec_rterms ts, dec_hops os with
+      | Some rts, Some ops => Lst (Sym "steps" :: run_ops_steps rts ops [] [] empty_egraph)
+      | _, _ => Sym "bad-case"
+      end
+  | _ => Sym "bad-case"
+  end.
+
+(* everything at once for the end-of-history properties: model observation + closure matrix *)
+Definition run_egall (args : list sexp) : sexp := Lst [Sym "all"; run_egm args; run_eg 2 8 args].
